@@ -521,6 +521,52 @@ M('C10', 'body-not-decoded', TY, "                m['body'] = bytearray(base64.b
 M('C10', 'is-armor-match', TY, "        return Armorable.__armor_regex.search(text) is not None", "        return Armorable.__armor_regex.match(text) is not None", 'C10.7')
 M('C10', 'header-reader-sep-no-space', TY, "re.findall('^(?P<key>.+): (?P<value>.+)$\\n?', m['headers'], flags=re.MULTILINE)", "re.findall('^(?P<key>.+):(?P<value>.+)$\\n?', m['headers'], flags=re.MULTILINE)", 'C10.7')
 M('C10', 'end-label-not-tied', TY, "^-{5}END\\ PGP\\ (?P=magic)-{5}(?:\\r?\\n)?", "^-{5}END\\ PGP\\ [A-Z0-9 ,]+-{5}(?:\\r?\\n)?", 'C10.7')
+T('C10', 'twin-str-textwrap-to-bytes', TY, "        payload = '\\n'.join(payload[i:(i + 64)] for i in range(0, len(payload), 64))", "        payload = '\\n'.join(textwrap.wrap(payload, 64))",
+  more=[(TY, "crc=base64.b64encode(PGPObject.int_to_bytes(self.crc24(self.__bytes__()), 3)).decode('latin-1')", "crc=base64.b64encode(self.crc24(self.__bytes__()).to_bytes(3, 'big')).decode('latin-1')"),
+        (TY, "import warnings\n", "import textwrap\nimport warnings\n")])
+M('C10', 'wrap-textwrap-80', TY, "        payload = '\\n'.join(payload[i:(i + 64)] for i in range(0, len(payload), 64))", "        payload = '\\n'.join(textwrap.wrap(payload, 80))", 'C10.3',
+  more=[(TY, "import warnings\n", "import textwrap\nimport warnings\n")])
+M('C10', 'crc-to-bytes-2', TY, "crc=base64.b64encode(PGPObject.int_to_bytes(self.crc24(self.__bytes__()), 3)).decode('latin-1')", "crc=base64.b64encode((self.crc24(self.__bytes__()) & 0xFFFF).to_bytes(2, 'big')).decode('latin-1')", 'C10.2')
+T('C10', 'twin-kind-check-frozenset-constant', PGP, _MSG_CHECK, "        if unarmored['magic'] is not None and unarmored['magic'] not in PGPMessage._ARMOR_LABELS:\n            raise ValueError('Expected: MESSAGE. Got: {}'.format(str(unarmored['magic'])))\n",
+  more=[(PGP, "class PGPMessage(Armorable, PGPObject):\n", "class PGPMessage(Armorable, PGPObject):\n    _ARMOR_LABELS = frozenset(['MESSAGE', 'SIGNATURE'])\n\n")])
+M('C10', 'kind-check-frozenset-with-key-label', PGP, _MSG_CHECK, "        if unarmored['magic'] is not None and unarmored['magic'] not in PGPMessage._ARMOR_LABELS:\n            raise ValueError('Expected: MESSAGE. Got: {}'.format(str(unarmored['magic'])))\n", 'C10.5',
+  more=[(PGP, "class PGPMessage(Armorable, PGPObject):\n", "class PGPMessage(Armorable, PGPObject):\n    _ARMOR_LABELS = frozenset(['MESSAGE', 'SIGNATURE', 'PUBLIC KEY BLOCK'])\n\n")])
+T('C10', 'twin-crc-msb-first-formulation', TY, _CRC_BODY, """        crc = Armorable.__crc24_init
+        for b in bytes(data):
+            for bit in range(7, -1, -1):
+                top = ((crc >> 23) ^ (b >> bit)) & 1
+                crc = (crc << 1) & 0xFFFFFF
+                if top:
+                    crc ^= Armorable.__crc24_poly & 0xFFFFFF
+        return crc
+""")
+M('C10', 'crc-msb-first-wrong-tap', TY, _CRC_BODY, """        crc = Armorable.__crc24_init
+        for b in bytes(data):
+            for bit in range(7, -1, -1):
+                top = ((crc >> 22) ^ (b >> bit)) & 1
+                crc = (crc << 1) & 0xFFFFFF
+                if top:
+                    crc ^= Armorable.__crc24_poly & 0xFFFFFF
+        return crc
+""", 'C10.1')
+T('C10', 'twin-str-headers-by-key-newline-in-body', TY, _STR_BODY, """        payload = base64.b64encode(self.__bytes__()).decode('latin-1')
+        lines = [payload[i:(i + 64)] for i in range(0, len(payload), 64)]
+        body = '\\n'.join(lines) + '\\n'
+        headers = ''
+        for name in self.ascii_headers:
+            headers += '{}: {}\\n'.format(name, self.ascii_headers[name])
+
+        return '-----BEGIN PGP {0}-----\\n{1}\\n{2}={3}\\n-----END PGP {0}-----\\n'.format(
+            self.magic, headers, body, base64.b64encode(PGPObject.int_to_bytes(self.crc24(self.__bytes__()), 3)).decode('latin-1'))
+""")
+M('C10', 'headers-value-is-key', TY, "'{key}: {val}\\n'.format(key=key, val=val)", "'{key}: {val}\\n'.format(key=key, val=key)", 'C10.7')
+M('C10', 'headers-joined-without-newline', TY, "'{key}: {val}\\n'.format(key=key, val=val)", "'{key}: {val}'.format(key=key, val=val)", 'C10.7')
+T('C10', 'twin-kind-checks-none-in-tuple-truthiness', PGP, _SIG_CHECK, "        if unarmored['magic'] not in (None, 'SIGNATURE'):\n            raise ValueError('Expected: SIGNATURE. Got: {}'.format(str(unarmored['magic'])))\n",
+  more=[(PGP, _MSG_CHECK, "        accepted = {'MESSAGE', 'SIGNATURE'}\n        if unarmored['magic'] and unarmored['magic'] not in accepted:\n            raise ValueError('Expected: MESSAGE. Got: {}'.format(str(unarmored['magic'])))\n"),
+        (PGP, _KEY_CHECK, "        if unarmored['magic'] is not None and not unarmored['magic'].count('KEY'):\n            raise ValueError('Expected: KEY. Got: {}'.format(str(unarmored['magic'])))\n")])
+T('C10', 'twin-unarmor-compound-condition-raise', TY, "        if m['crc'] is not None:\n            m['crc'] = Header.bytes_to_int(base64.b64decode(m['crc'].encode()))\n            if Armorable.crc24(m['body']) != m['crc']:\n                warnings.warn('Incorrect crc24', stacklevel=3)",
+  "        if m['crc']:\n            m['crc'] = Header.bytes_to_int(base64.b64decode(m['crc'].encode()))\n        if m['crc'] is not None and not (Armorable.crc24(m['body']) == m['crc']):\n            import logging\n            logging.getLogger(__name__).warning('Incorrect crc24')")
+M('C10', 'crc-compound-condition-or', TY, "            if Armorable.crc24(m['body']) != m['crc']:", "            if m['magic'] == 'SIGNATURE' and Armorable.crc24(m['body']) != m['crc']:", 'C10.6')
 
 # =============================================================================================== C11
 M('C11', 'escape-two-spaces', PGP, "        return re.subn(r'^-', '- -', text, flags=re.MULTILINE)[0]", "        return re.subn(r'^-', '-  -', text, flags=re.MULTILINE)[0]", 'C11.1')
@@ -675,6 +721,10 @@ T('C11', 'twin-verify-view-in-local', PGP, "                for sig in _filter_s
   "                signed_view = subject._signed_data\n                sspairs += [(s, signed_view) for s in _filter_sigs(subject.signatures)]")
 M('C11', 'verify-stripped-message', PGP, "                    sspairs.append((sig, subject._signed_data))", "                    sspairs.append((sig, subject.message.rstrip()))", 'C11.4')
 M('C11', 'verify-message-object', PGP, "                    sspairs.append((sig, subject._signed_data))", "                    sspairs.append((sig, subject))", 'C11.4')
+T('C11', 'twin-str-hash-header-if-signatures', PGP, "            hhdr = 'Hash: {hashes:s}\\n'.format(hashes=','.join(sorted(hashes))) if hashes else ''",
+  "            hhdr = ''\n            if self.signatures:\n                hhdr = 'Hash: ' + ','.join(sorted(hashes)) + '\\n'")
+M('C11', 'hash-header-if-no-signatures', PGP, "            hhdr = 'Hash: {hashes:s}\\n'.format(hashes=','.join(sorted(hashes))) if hashes else ''",
+  "            hhdr = ''\n            if not self.signatures:\n                hhdr = 'Hash: ' + ','.join(sorted(hashes)) + '\\n'", 'C11.3')
 
 # =============================================================================================== C09
 M('C09', 'enc-191', TY, "            if 192 > nl:\n                return Header.int_to_bytes(nl)", "            if 191 > nl:\n                return Header.int_to_bytes(nl)", 'C09.1')
